@@ -31,7 +31,7 @@ ASSUMPTIONS = [
 ]
 EXHAUSTIVE = {'quick': True, 'thorough': True}
 KNOWN_KEYS = {'include-prefix-sibling', 'require-dotdot-segment', 'carts-folder-prefix-sibling'}
-SEGS = ['x', '.', '..', 'sub', 'rootbar', 'root', '', '?', ';']
+SEGS = ['x', '.', '..', 'sub', 'rootbar', 'root', '', '?', ';']   # (case variants ROOT/Root/SUB/Carts/Game are driven in the sequences shard)
 CANARY = b'CANARY_OUTSIDE_ROOT=1\n'
 LEGIT = b'legit=1\n'
 TIMEOUT = {'quick': 1500, 'thorough': 10800}
@@ -65,7 +65,8 @@ def plan(tier, seed):
 def make_universe():
     U = tempfile.mkdtemp(prefix='vf-c12-')
     U = os.path.realpath(U)
-    for d in ('root/sub', 'root/lib', 'root/x', 'rootbar/sub', 'rootbar/lib', 'outside/sub', 'outside/lib', 'abs/lib',
+    for d in ('root/sub', 'root/lib', 'root/x', 'rootbar/sub', 'rootbar/lib', 'outside/sub', 'outside/lib', 'abs/lib', 'ROOT/sub', 'Root',
+              'home/.lexaloffle/pico-8/Carts/game', 'home/.lexaloffle/pico-8/carts/Game', 'root/SUB',
               'home/.lexaloffle/pico-8/carts/game', 'home/.lexaloffle/pico-8/carts/other', 'home/.lexaloffle/pico-8/carts2/game',
               'home/.lexaloffle/pico-8/sub', 'sub', 'lib', 'x'):
         os.makedirs(os.path.join(U, d), exist_ok=True)
@@ -183,8 +184,17 @@ def run_require(ctx, U, s, lp, hostile):
     out = os.path.join(root, 'out_req.p8')
     if '"' in s or '\\' in s:
         return
+    form = ('paren', 'paren', 'paren', 'string_call', 'long_string_call', 'nested_string_call')[hash((s, lp)) % 6] if ']]' not in s and "'" not in s else 'paren'
     with open(main, 'wb') as fh:
-        fh.write(b'q=1\nrequire("' + s.encode() + b'")\n')
+        if form == 'paren':
+            fh.write(b'q=1\nrequire("' + s.encode() + b'")\n')
+        elif form == 'string_call':
+            fh.write(b'q=1\nrequire "' + s.encode() + b'"\n')
+        elif form == 'long_string_call':
+            fh.write(b'q=1\nrequire [[' + s.encode() + b']]\n')
+        else:
+            fh.write(b"q=1\nprint(require '" + s.encode() + b"')\n")
+    ctx.feature('require_form:' + form)
     argv = ['-q', 'build', out, '--lua', main]
     roots = [root]
     env_path = None
@@ -282,6 +292,19 @@ def run_shard(spec, ctx):
                     for s_ in ('../x', '..', 'sub/../../x', 'x'):
                         for lp in LOAD_PATHS:
                             run_require(ctx, U, s_, lp, hostile)
+                    # the same name resolved under a permissive load path first, then under a restrictive one
+                    for s_ in ('x', 'lib', 'init', 'sub/x'):
+                        for lp_first in ('env', 'abs'):
+                            run_require(ctx, U, s_, lp_first, hostile)
+                            run_require(ctx, U, s_, 'default', hostile)
+                            run_require(ctx, U, s_, 'rel_lib', hostile)
+                    # case variants of the root's own name are different directories
+                    for s_ in ('../ROOT/sub/x', '../Root/x', '../../ROOT/x', 'SUB/x', '../SUB/x'):
+                        run_include(ctx, U, s_, '.lua', 'subdir', hostile)
+                        run_include(ctx, U, s_, '.lua', 'plain', hostile)
+                    for s_ in ('../Game/x', '../../Carts/game/x', '../../Carts/x'):
+                        run_include(ctx, U, s_, '.lua', 'carts', hostile)
+                        run_include(ctx, U, s_, '.lua', 'carts2', hostile)
             ctx.feature('sequences_done')
             return
         if spec['kind'] == 'absolute':
